@@ -15,7 +15,7 @@ for d in sorted(glob.glob(os.path.join(HERE, "seeded", "C*_*"))):
     mp = os.path.join(d, "meta.json")
     meta = json.load(open(mp))
     res = meta.get("runs", {})
-    for log in sorted(glob.glob("/tmp/seedrun_%s*.log" % sid.lower()), key=os.path.getmtime):      # newer runs overwrite older ones
+    for log in sorted([g for g in glob.glob("/tmp/seedrun_%s*.log" % sid.lower()) if re.match(r"^%s(\D.*)?\.log$" % sid.lower(), os.path.basename(g)[len("seedrun_"):])], key=os.path.getmtime):      # newer runs overwrite older ones
         txt = open(log).read()
         for m in re.finditer(r"^=== (C\d+) exit=(\d+)", txt, re.M):
             chk, rc = m.group(1), int(m.group(2))
